@@ -132,21 +132,64 @@ KF07(impl, st, c) ==
     IF Mem(impl) /\ c.op = "link" /\ ro.err = "ok" /\ IsLink(st, ro.id) /\ Apply(st, c).res.err = "ok"
     THEN {Dev("KF07", Fail("EPERM", st), "ok", FALSE)} ELSE {}
 
-(* KF08  MemFS.Rename reports a missing source (ENOENT) before an unusable destination directory
+(* KF08  MemFS.Rename and OrefaFS.Rename report a missing source (ENOENT) before an unusable destination directory
          (reference: the error of the destination path - ENOTDIR, ELOOP - comes first). *)
 KF08(impl, st, c) ==
     LET ro == Res(st, c.p, FALSE)   rn == Res(st, c.q, FALSE) IN
-    IF Mem(impl) /\ c.op = "rename" /\ ro.err = "ok" /\ ro.id = 0 /\ rn.err \notin {"ok", "ENOENT"}
+    IF Both(impl) /\ c.op = "rename" /\ ro.err = "ok" /\ ro.id = 0 /\ rn.err \notin {"ok", "ENOENT"}
     THEN {Dev("KF08", Fail("ENOENT", st), "ok", FALSE)} ELSE {}
+
+(* KF10  OrefaFS looks a path up in a flat index: a path that runs through a regular file is simply
+         "not found".  Remove, Truncate, Chmod, Chtimes, Chdir and the source operand of Rename and Link
+         answer ENOENT where Linux answers ENOTDIR, and RemoveAll answers nil. *)
+KF10(impl, st, c) ==
+    LET r == Res(st, c.p, FALSE) IN
+    IF Orefa(impl) /\ r.err = "ENOTDIR"
+       /\ c.op \in {"remove", "truncate", "chmod", "chtimes", "chdir", "rename", "link", "removeall"}
+    THEN {Dev("KF10", IF c.op = "removeall" THEN Ok(st) ELSE Fail("ENOENT", st), "ok", FALSE)} ELSE {}
+
+(* KF11  OrefaFS.Rename returns nil at once when both names are the same absolute path, whether or not
+         it exists (reference: ENOENT when missing, EEXIST for a directory, ENOTDIR through a file). *)
+KF11(impl, st, c) ==
+    IF Orefa(impl) /\ c.op = "rename" /\ AbsParts(st, c.p) = AbsParts(st, c.q)
+    THEN {Dev("KF11", Ok(st), "ok", FALSE)} ELSE {}
+
+(* KF12  OrefaFS.Rename of a directory onto any existing name answers EEXIST
+         (reference: ENOTDIR for a file destination, EINVAL when the destination lies inside the source). *)
+KF12(impl, st, c) ==
+    LET ro == Res(st, c.p, FALSE)   rn == Res(st, c.q, FALSE) IN
+    IF Orefa(impl) /\ c.op = "rename" /\ ro.err = "ok" /\ rn.err = "ok" /\ IsDir(st, ro.id) /\ rn.id # 0
+    THEN {Dev("KF12", Fail("EEXIST", st), "ok", FALSE)} ELSE {}
+
+(* KF13  Rename between two hard links of one file removes the source name (MemFS, OrefaFS);
+         rename(2) does nothing when both names refer to the same inode. *)
+KF13(impl, st, c) ==
+    LET ro == Res(st, c.p, FALSE)   rn == Res(st, c.q, FALSE) IN
+    IF Both(impl) /\ c.op = "rename" /\ ro.err = "ok" /\ rn.err = "ok" /\ ro.id # 0 /\ ro.id = rn.id
+       /\ ~IsDir(st, ro.id) /\ ro.nm # rn.nm /\ LastKind(c.p) = "norm" /\ LastKind(c.q) = "norm"
+    THEN {Dev("KF13", Ok(Gc(DelEntry(st, Last(ro.par), ro.name))), "ok", FALSE)} ELSE {}
+
+(* KF14  OrefaFS: creating below a path that runs through a regular file more than one level up
+         (the parent itself is not in the index) answers ENOENT where Linux answers ENOTDIR:
+         OpenFile/Create/WriteFile/CreateTemp and the new name of Link and Rename. *)
+ParentOf(p) == [abs |-> p.abs, parts |-> Front(p.parts)]
+KF14(impl, st, c) ==
+    LET viaFile(p) == p.parts # <<>> /\ Res(st, ParentOf(p), FALSE).err = "ENOTDIR" IN
+    IF Orefa(impl) /\ (\/ (c.op \in {"openclose", "open", "create", "writefile"} /\ viaFile(c.p))
+                       \/ (c.op = "createtemp" /\ Res(st, c.p, FALSE).err = "ENOTDIR")
+                       \/ (c.op \in {"link", "rename"} /\ viaFile(c.q)))
+    THEN {Dev("KF14", Fail("ENOENT", st), "ok", FALSE)} ELSE {}
 
 \* DEVIATIONS-END
 
 KFTable(impl, st, c) ==
     [KF01 |-> KF01(impl, st, c), KF02 |-> KF02(impl, st, c), KF03 |-> KF03(impl, st, c),
      KF04 |-> KF04(impl, st, c), KF05 |-> KF05(impl, st, c), KF06 |-> KF06(impl, st, c),
-     KF07 |-> KF07(impl, st, c), KF08 |-> KF08(impl, st, c)]
+     KF07 |-> KF07(impl, st, c), KF08 |-> KF08(impl, st, c), KF10 |-> KF10(impl, st, c),
+     KF11 |-> KF11(impl, st, c), KF12 |-> KF12(impl, st, c), KF13 |-> KF13(impl, st, c),
+     KF14 |-> KF14(impl, st, c)]
 
-AllKF == {"KF01", "KF02", "KF03", "KF04", "KF05", "KF06", "KF07", "KF08"}
+AllKF == {"KF01", "KF02", "KF03", "KF04", "KF05", "KF06", "KF07", "KF08", "KF10", "KF11", "KF12", "KF13", "KF14"}
 
 DevOutcomes(impl, st, c) ==
     LET t == KFTable(impl, st, c) IN UNION {t[k] : k \in (OpenKF \cap DOMAIN t)}
